@@ -71,6 +71,16 @@ impl SmallPrices {
         })
     }
 
+    /// Verification hook (runtime monitors in `/verif`): public forwarding wrapper of `from_price`.
+    #[cfg(gmsol_verif)]
+    pub fn verif_from_price(
+        price: &gmsol_utils::Price,
+        is_synthetic: bool,
+        is_open: bool,
+    ) -> Result<Self> {
+        Self::from_price(price, is_synthetic, is_open)
+    }
+
     /// Returns whether the token is synthetic.
     pub fn is_synthetic(&self) -> bool {
         self.flags.get_flag(OraclePriceFlag::Synthetic)
